@@ -13,7 +13,7 @@ K_NAME = ('K_linker (Linker.linker_solve_t_M / LinkerRange.linker_solve_span_M (
           'linker_ctor_M instantiated with PrimFloat vs BaseLinker.solve_t / solve(start=, end=) / __init__ on scripted submodels and scripted linker hooks; twin: Solver.solve_t_M vs BaseModel.solve_t)')
 RULE = ('linkers over 1-4 submodels BUILT by fsic from C01-grammar programs (9 templates incl. divisions by zero under every errors= policy: static, lag 1/2, lead 1/2, two-equation '
         'simultaneous blocks; differing LAGS/LEADS) cross-linked through the linker hooks, solve_t and solve(start=, end=) — their recorded '
-        'per-pass values instantiate the model oracle; linkers over 0-4 scripted submodels (1-3 variables each, differing LAGS/LEADS, differing check lists) and 0-2 linker variables; '
+        'per-pass values instantiate the model oracle; linkers over 0-4 scripted submodels (1-3 variables each, differing LAGS/LEADS, differing check lists; instance-level check / lags / leads differing from the class-level CHECK / LAGS / LEADS) and 0-2 linker variables; '
         'scripted hooks that write linker variables and cross-link submodel variables; every subset and order of `submodels=` incl. '
         'duplicates and an unknown id at each position; positive/negative/out-of-span t; min_iter 0..max_iter+2, max_iter 0..4 (and <0), '
         'tol in {1e-10, 0.5, 1, 0, 1e-300}, failures; exhaustive per-iteration move sequences (0, tol-1ulp, tol, tol+1ulp, 1.0 per check '
@@ -23,7 +23,10 @@ RULE = ('linkers over 1-4 submodels BUILT by fsic from C01-grammar programs (9 t
         'constructor call over >= 2 submodels; distinct by hash of the whole case.')
 TRUSTED = ['scripted submodel / linker subclasses harness/scripted_linker.py (the same scripts are the Coq oracles of Linker/LinkerF.v); '
            'for submodels built by fsic.build_model the values each _evaluate leaves are recorded by an instrumented subclass and replayed as the oracle']
-ASSUMPTIONS = ['_evaluate of a submodel writes only that submodel\'s variable values; the four linker hooks write only variable values of the '
+ASSUMPTIONS = ['the oracle judges only what the statement constrains; K (the model) additionally mirrors: nothing stamped on a raise path, '
+               'which counters are zeroed before a KeyError, what hooks are handed as submodels=, copies — such differences surface as '
+               'no-failing-input-found, by design',
+               '_evaluate of a submodel writes only that submodel\'s variable values; the four linker hooks write only variable values of the '
                'linker and of its submodels (not status / iterations, not the submodels dictionary) — the shape of the model\'s oracles',
                'submodel identifiers are hashable keys compared with == (modelled as natural numbers)',
                'element equality across span containers: integers of list / tuple / range / ndarray / Index compare by value, a pandas Period / Timestamp never equals an integer or each other (Linker.elt_class; observed by K over all 49 ordered kind pairs)',
@@ -95,6 +98,9 @@ def impl(case):
         for s in case['subs']:
             cls = sl.make_sub_class(fsic.BaseModel, 1, [0], [0], s['lags'], s['leads'])
             subs[s['id']] = cls(sl.make_span(*s['span']))
+            if 'ilags' in s:          # instance attributes edited after construction: the linker reads the CLASS-level LAGS / LEADS
+                subs[s['id']].__dict__['lags'] = s['ilags']
+                subs[s['id']].__dict__['leads'] = s['ileads']
         kw = {}
         if case.get('span') is not None:
             kw['span'] = sl.make_span(*case['span'])
@@ -462,9 +468,33 @@ def _hook_targets(case):
     return tg
 
 
+def _written_rows(case):
+    """{component: set of variable rows some script writes} — component 0 = the linker's core, j+1 = the j-th submodel;
+    None for a submodel built by fsic (its recorded passes write every row)"""
+    w = {c: set() for c in range(len(case['subs']) + 1)}
+    for j, s in enumerate(case['subs']):
+        if s.get('program'):
+            w[j + 1] = None
+            continue
+        for ps in s.get('passes', {}).values():
+            for acts in ps:
+                for a in acts:
+                    if a[0] in ('set', 'warnset', 'affine', 'setat'):
+                        w[j + 1].add(a[1])
+    for h in case.get('hooks', {}).values():
+        for acts in [h.get('pre', []), h.get('post', [])] + list(h.get('before', [])) + list(h.get('after', [])):
+            for a in acts:
+                if a[0] in ('set', 'affine') and w.get(a[1]) is not None:
+                    w[a[1]].add(a[2])
+    return w
+
+
 def _oracle_solve_t(case, obs, bad, t=None, before=None):
     """The C08 statement for one solve_t call, evaluated on what the implementation did.
-    `before` = containers as they were before the call (defaults to the case's initial state)."""
+    `before` = containers as they were before the call (defaults to the case's initial state).
+    Only what the statement constrains is judged here; K (the model) mirrors the code more closely than this — e.g. which
+    counters are already zeroed when an unknown id is met, what a hook is handed as submodels=, that nothing is stamped when a
+    hook raises — and reports such differences as `no-failing-input-found`."""
     o = case['opts']
     n = case['n']
     t = case['t'] if t is None else t
@@ -496,53 +526,41 @@ def _oracle_solve_t(case, obs, bad, t=None, before=None):
         d, b = subs_obs[sid], subs_before[sid]
         if d['status'] != b['status'] or d['iters'] != b['iters']:
             bad('unselected|restamped', 'unselected submodel %r: status/iterations changed: %s %s -> %s %s' % (sid, b['status'], b['iters'], d['status'], d['iters']))
-        if any(e[0] == 'sub' and e[1] == sid for e in log) or d['evlog']:
+        if any(e[0] == 'sub' and e[1] == sid for e in log) or any(e[0] == 'pass' for e in d['evlog']):
             bad('unselected|evaluated', 'unselected submodel %r was evaluated' % (sid,))
         if (j + 1) not in hook_tg and d['vals'] != b['vals']:
             bad('unselected|values', 'values of unselected submodel %r changed although no hook writes to it' % (sid,))
-    # a submodel's own solve_t_before / solve_t_after are never part of a linker iteration
-    for sid in known:
-        if any(e[0] != 'pass' for e in subs_obs[sid]['evlog']):
-            bad('submodel-hooks-run', 'the linker ran a hook of submodel %r itself: %s' % (sid, subs_obs[sid]['evlog']))
     # ---- other periods: nothing is stamped outside t
     for name, d, b in [('linker', obs['core'], b_core)] + [(sid, subs_obs[sid], subs_before[sid]) for sid in known]:
         if any(d['status'][i] != b['status'][i] or d['iters'][i] != b['iters'][i] for i in range(n) if i != p):
             bad('other-periods', 'status/iterations of %r changed at a period other than t' % (name,))
 
-    # ---- the two guards (as for a single model): min_iter > max_iter -> ValueError; a period without room for the linker's
-    # lags / leads (the longest among ALL its submodels) -> IndexError; both before anything is looked at or changed
+    # ---- up-front rejections.  As for a single model: min_iter > max_iter -> ValueError; a period without room for the
+    # linker's lags / leads (the longest among ALL its submodels) -> IndexError, nothing changed.  An unknown submodel id ->
+    # KeyError.  When several apply the statement does not say which wins: any of their classes is accepted.
     def untouched():
         return (not log and obs['core'] == {k: b_core[k] for k in ('vals', 'status', 'iters')} and
                 all({k: subs_obs[sid][k] for k in ('vals', 'status', 'iters')} == {k: subs_before[sid][k] for k in ('vals', 'status', 'iters')}
                     and not subs_obs[sid]['evlog'] for sid in known))
-    if o['min_iter'] > o['max_iter']:
-        if out[:3] != ['raise', 'ValueError', False] or not untouched():
-            bad('guard|min_iter>max_iter', 'solve_t(min_iter=%d > max_iter=%d) must raise ValueError and change nothing; got %s, untouched=%s'
-                % (o['min_iter'], o['max_iter'], out, untouched()))
-        return
     L_lags = max([s.get('lags', 0) for s in case['subs']] + [0])
     L_leads = max([s.get('leads', 0) for s in case['subs']] + [0])
+    reasons = []
+    if o['min_iter'] > o['max_iter']:
+        reasons.append(('ValueError', 'guard|min_iter>max_iter', 'min_iter=%d > max_iter=%d' % (o['min_iter'], o['max_iter'])))
     if p < L_lags or p >= n - L_leads:
-        if out[:3] != ['raise', 'IndexError', False] or not untouched():
-            bad('guard|infeasible-period', 'period %d of %d leaves no room for the linker\'s lags / leads (%d / %d, the longest among its submodels): '
-                'solve_t must raise IndexError and change nothing; got %s, untouched=%s' % (p, n, L_lags, L_leads, out, untouched()))
-        return
-
-    # ---- unknown id: KeyError; exactly the counters of the ids listed before it were zeroed; nothing else happened
-    unknown = [j for j, sid in enumerate(ids) if sid not in known]
+        reasons.append(('IndexError', 'guard|infeasible-period', 'period %d of %d leaves no room for the linker\'s lags / leads (%d / %d, '
+                        'the longest among its submodels)' % (p, n, L_lags, L_leads)))
+    unknown = [sid for sid in ids if sid not in known]
     if unknown:
-        j = unknown[0]
-        exp_zero = set(ids[:j])
-        ok = out[:3] == ['raise', 'KeyError', False] and not log and obs['core'] == {k: b_core[k] for k in ('vals', 'status', 'iters')}
-        for sid in known:
-            d, b = subs_obs[sid], subs_before[sid]
-            exp_it = list(b['iters'])
-            if sid in exp_zero:
-                exp_it[p] = 0
-            ok = ok and d['iters'] == exp_it and d['status'] == b['status'] and d['vals'] == b['vals']
-        if not ok:
-            bad('unknown-id', 'unknown submodel id %r at position %d of submodels=: expected KeyError before any hook, with exactly the '
-                'iteration counters of %s zeroed; got %s, log %s' % (ids[j], j, sorted(exp_zero), out, log[:4]))
+        reasons.append(('KeyError', 'unknown-id', 'unknown submodel id %r in submodels=' % (unknown[0],)))
+    if reasons:
+        classes = [r[0] for r in reasons]
+        if o['offset'] != 0 and not (0 <= p + o['offset'] < n):
+            classes.append('IndexError')          # an offset pointing outside the span is a reason of its own (as for a single model)
+        if out[0] != 'raise' or out[2] or out[1] not in classes:
+            bad(reasons[0][1], '%s: solve_t must raise %s; got %s' % ('; '.join(r[2] for r in reasons), ' or '.join(classes), out))
+        elif out[1] in ('ValueError', 'IndexError') and not untouched():
+            bad(reasons[0][1], '%s: rejected with %s, but something was changed / evaluated before' % (reasons[0][2], out[1]))
         return
 
     # ---- event order (prefix of the grammar on an exception path; complete otherwise)
@@ -558,88 +576,145 @@ def _oracle_solve_t(case, obs, bad, t=None, before=None):
     m = sum(1 for e in log if e[0] == 'after')
     user_raise = out[0] == 'raise' and out[2]
     if user_raise:
+        # a hook / a submodel raised: the statement says nothing about such paths beyond the order of what did run
         full = expected_events(m + 1, None)
         posts = [e for e in log if e[0] == 'post']
         body = [e for e in log if e[0] != 'post']
         if body != full[:len(body)] or len(posts) > 1 or (posts and (log[-1] != posts[0] or posts[0][2] != m)):
             bad('event-order', 'events are not a prefix of pre, (before_k, sub ids in selection order, after_k)*, post: %s' % log[:12])
-        # nothing is stamped when a hook / submodel raises (the linker has no error policy): status of t untouched
-        if obs['core']['status'][p] != b_core['status'][p]:
-            bad('raise-path|stamped', 'a raising hook/submodel must leave the linker status at t alone (no error policy in the linker)')
         return
-    if any(s is not None and s != ids for s in obs['selseen']) or any(s is None for s in obs['selseen']):
-        bad('hook-args', 'a linker hook did not receive the effective selection %s as submodels=: %s' % (ids, obs['selseen'][:3]))
 
-    # ---- offset: "a non-zero offset seeds period t from t+offset as it does for a single model"
+    sel_known = [sid for sid in known if sid in ids]
+
+    # ---- offset: "a non-zero offset seeds period t from t+offset as it does for a single model": the endogenous rows of the
+    # linker's own core and of every SELECTED submodel take their period-t value from period t+offset BEFORE the first check
+    # values are read; exogenous rows and unselected submodels are not seeded; an offset pointing outside the span -> IndexError
+    def initial(comp, i, pos):
+        return (b_core if comp == 0 else b_subs[comp - 1])['vals'][i][pos]
+
+    def seeds(comp, i):          # is row i of component comp one the statement wants seeded?
+        if comp == 0:
+            return True          # the scripted linker declares all its own variables endogenous
+        s = case['subs'][comp - 1]
+        return s['id'] in ids and i in s.get('endo', [])
+    q = None
+    seed_ok, seed_seen = True, 0
     if o['offset'] != 0:
         q = p + o['offset']
         if q < 0 or q >= n:
+            q = None
             if out[:2] != ['raise', 'IndexError']:
                 bad('offset|out-of-span-accepted', 'offset=%d at position %d points outside the span: a single model raises IndexError, '
                     'the linker went on: %s' % (o['offset'], p, out))
-        else:
-            for j, s in enumerate(case['subs']):
-                if s['id'] not in ids or (j + 1) in hook_tg:
-                    continue
-                written = {a[1] for ps in s.get('passes', {}).values() for acts in ps for a in acts if a[0] in ('set', 'warnset', 'affine', 'setat')}
-                b = subs_before[s['id']]
-                for i in s.get('endo', []):
-                    if i not in written and b['vals'][i][q] != b['vals'][i][p] and subs_obs[s['id']]['vals'][i][p] != b['vals'][i][q]:
-                        bad('offset|not-seeded', 'offset=%d: endogenous V%d of submodel %r at t was not seeded from t+offset '
-                            '(still %s, source %s)' % (o['offset'], i, s['id'], subs_obs[s['id']]['vals'][i][p], b['vals'][i][q]))
-                        break
-        return      # what the rest of the run should look like under a seeding linker is not determined by this observation
-
-    # ---- convergence: least k in [max 1 min_iter, max_iter] at which EVERY check entry moved by < tol
-    sel_known = [sid for sid in known if sid in ids]
-    c0 = [[b_core['vals'][i][p] for i in case['core']['check']]] + \
-         [[subs_before[s['id']]['vals'][i][p] for i in s['check']] for s in case['subs'] if s['id'] in sel_known]
-    seq = [c0] + [[sn['_']] + [sn[str(sid)] for sid in sel_known] for sn in obs['snaps']]
-    if len(obs['snaps']) != m:
-        bad('snapshots', 'harness: %d snapshots for %d iterations' % (len(obs['snaps']), m))
-        return
-    lo = max(1, o['min_iter'])
-    K = None
-    for k in range(lo, min(m, o['max_iter']) + 1):
-        if all(_moved_lt(a, b, tol) for a, b in zip(seq[k], seq[k - 1])):
-            K = k
-            break
-    stat = obs['core']['status'][p]
-    its = obs['core']['iters'][p]
-    if K is not None:
-        exp = (['ret', True], '.', K, K)
-        got = (out, stat, its, m)
-        if got != exp:
-            bad('converged-at-k', 'first iteration in [max(1,min_iter), max_iter] at which every check variable of the linker and of every '
-                'selected submodel moved by < tol is k=%d: expected True, status ".", iterations=%d after exactly %d iterations; got %s' % (K, K, K, got))
-        if log != expected_events(K, K):
-            bad('event-order', 'expected pre, %d x (before_k, subs %s in order, after_k), post_%d; got %s' % (K, ids, K, log[:14]))
-    else:
-        N = max(o['max_iter'], 0)
-        if out[0] == 'raise' and out[1] == 'UnboundLocalError':
-            bad('max_iter<=0|UnboundLocalError', 'linker solve_t(t, max_iter=%d) raises UnboundLocalError (iteration unbound)' % o['max_iter'])
-            return
-        exp_out = ['raise', 'NonConvergenceError', False, None] if o['failures'] == 'raise' else ['ret', False]
-        exp = (exp_out, 'F', N, N)
-        got = (out, stat, its, m)
-        if got != exp:
-            if stat == '.' and 1 <= m <= N and m >= o['min_iter'] and not all(_moved_lt(a, b, tol) for a, b in zip(seq[m], seq[m - 1])):
-                mv = max([abs(_f(x) - _f(y)) for a, b in zip(seq[m], seq[m - 1]) for x, y in zip(a, b)] + [0.0])
-                bad('declared-solved|moved>=tol', 'period declared solved at iteration %d although a check variable moved by %r >= tol=%r' % (m, mv, tol))
+            elif not untouched():
+                bad('offset|out-of-span-accepted', 'offset=%d outside the span: IndexError, but something was changed before' % o['offset'])
             else:
-                bad('no-converging-k', 'no iteration in [max(1,min_iter), max_iter] converged: expected %s; got %s' % (exp, got))
-        elif log != expected_events(N, None):
-            bad('event-order', 'expected pre and %d complete iterations without post-hook; got %s' % (N, log[:14]))
-    # ---- stamping: same status on the linker and every selected submodel; iteration counts equal the linker's
-    for sid in sel_known:
-        d = subs_obs[sid]
-        if d['status'][p] != stat:
-            bad('stamp|status', 'selected submodel %r has status %r at t, the linker %r' % (sid, d['status'][p], stat))
-        mult = ids.count(sid)
-        if d['iters'][p] != its * mult:
-            bad('stamp|iterations', 'selected submodel %r (listed %d time(s)) has iterations[t]=%d, the linker %d' % (sid, mult, d['iters'][p], its))
-        if len(d['evlog']) != m * mult:
-            bad('pass-count', 'selected submodel %r was evaluated %d times in %d iterations' % (sid, len(d['evlog']), m))
+                return
+            # the linker went on as if no offset had been given: the remaining clauses are judged on that run
+        else:
+            written = _written_rows(case)
+            finals = [obs['core']] + [subs_obs[sid] for sid in known]
+            for comp in range(len(case['subs']) + 1):
+                if written[comp] is None:
+                    continue
+                nrows = len(finals[comp]['vals'])
+                for i in range(nrows):
+                    if i in written[comp]:
+                        continue
+                    fin, at_p, at_q = finals[comp]['vals'][i][p], initial(comp, i, p), initial(comp, i, q)
+                    name = 'the linker\'s own L%d' % i if comp == 0 else 'V%d of submodel %r' % (i, known[comp - 1])
+                    if seeds(comp, i):
+                        if fin == at_q and at_q != at_p:
+                            seed_seen += 1
+                        if fin != at_q:
+                            seed_ok = False
+                            bad('offset|not-seeded', 'offset=%d: endogenous %s at t was not seeded from t+offset (is %s, source %s)'
+                                % (o['offset'], name, fin, at_q))
+                            break
+                    elif fin != at_p and fin == at_q:
+                        bad('offset|seeded-wrong-row', 'offset=%d: %s (exogenous, or of an unselected submodel) was seeded from t+offset' % (o['offset'], name))
+                        break
+
+    # ---- convergence: least k in [max 1 min_iter, max_iter] at which EVERY check entry moved by < tol; stamping; counts.
+    # `start` = the check values the first iteration is compared with
+    def judge(start):
+        fails = []
+
+        def fail(sig, what):
+            fails.append((sig, what))
+        seq = [start] + [[sn['_']] + [sn[str(sid)] for sid in sel_known] for sn in obs['snaps']]
+        if len(obs['snaps']) != m:
+            fail('snapshots', 'harness: %d snapshots for %d iterations' % (len(obs['snaps']), m))
+            return fails
+        lo = max(1, o['min_iter'])
+        K = None
+        for k in range(lo, min(m, o['max_iter']) + 1):
+            if all(_moved_lt(a, b, tol) for a, b in zip(seq[k], seq[k - 1])):
+                K = k
+                break
+        stat = obs['core']['status'][p]
+        its = obs['core']['iters'][p]
+        if K is not None:
+            exp = (['ret', True], '.', K, K)
+            got = (out, stat, its, m)
+            if got != exp:
+                fail('converged-at-k', 'first iteration in [max(1,min_iter), max_iter] at which every check variable of the linker and of every '
+                     'selected submodel moved by < tol is k=%d: expected True, status ".", iterations=%d after exactly %d iterations; got %s' % (K, K, K, got))
+            if log != expected_events(K, K):
+                fail('event-order', 'expected pre, %d x (before_k, subs %s in order, after_k), post_%d; got %s' % (K, ids, K, log[:14]))
+        else:
+            N = max(o['max_iter'], 0)
+            if out[0] == 'raise' and out[1] == 'UnboundLocalError':
+                fail('max_iter<=0|UnboundLocalError', 'linker solve_t(t, max_iter=%d) raises UnboundLocalError (iteration unbound)' % o['max_iter'])
+                return fails
+            exp_out = ['raise', 'NonConvergenceError', False, None] if o['failures'] == 'raise' else ['ret', False]
+            exp = (exp_out, 'F', N, N)
+            got = (out, stat, its, m)
+            if got != exp:
+                if stat == '.' and 1 <= m <= N and m >= o['min_iter'] and not all(_moved_lt(a, b, tol) for a, b in zip(seq[m], seq[m - 1])):
+                    mv = max([abs(_f(x) - _f(y)) for a, b in zip(seq[m], seq[m - 1]) for x, y in zip(a, b)] + [0.0])
+                    fail('declared-solved|moved>=tol', 'period declared solved at iteration %d although a check variable moved by %r >= tol=%r' % (m, mv, tol))
+                else:
+                    fail('no-converging-k', 'no iteration in [max(1,min_iter), max_iter] converged: expected %s; got %s' % (exp, got))
+            elif log != expected_events(N, None):
+                fail('event-order', 'expected pre and %d complete iterations without post-hook; got %s' % (N, log[:14]))
+        # stamping: same status on the linker and every selected submodel; iteration counts equal the linker's
+        for sid in sel_known:
+            d = subs_obs[sid]
+            if d['status'][p] != stat:
+                fail('stamp|status', 'selected submodel %r has status %r at t, the linker %r' % (sid, d['status'][p], stat))
+            mult = ids.count(sid)
+            if d['iters'][p] != its * mult:
+                fail('stamp|iterations', 'selected submodel %r (listed %d time(s)) has iterations[t]=%d, the linker %d' % (sid, mult, d['iters'][p], its))
+            npass = sum(1 for e in d['evlog'] if e[0] == 'pass')
+            if npass != m * mult:
+                fail('pass-count', 'selected submodel %r was evaluated %d times in %d iterations' % (sid, npass, m))
+        return fails
+
+    comps = [(0, case['core']['check'])] + [(j + 1, s['check']) for j, s in enumerate(case['subs']) if s['id'] in sel_known]
+    c0_plain = [[initial(c, i, p) for i in chk] for c, chk in comps]
+    if q is None:
+        for sig, what in judge(c0_plain):
+            bad(sig, what)
+    else:
+        # the statement's run starts from the SEEDED values; the linker as it stands (finding #8) starts from the unseeded ones:
+        # failures that vanish when the unseeded start is assumed are instances of that finding and nothing else
+        c0_seeded = [[initial(c, i, q if seeds(c, i) else p) for i in chk] for c, chk in comps]
+        fails = judge(c0_seeded)
+        if fails:
+            alt = judge(c0_plain)
+            if not alt and not seed_ok:
+                pass        # already reported as offset|not-seeded: nothing was seeded, so the first comparison used the old values
+            elif not alt and not seed_seen:
+                # no row shows whether period t was seeded (every seedable row is overwritten by a script): the unseeded start
+                # explains the run — the kept finding
+                bad('offset|not-seeded', 'offset=%d: the first iteration was compared with the unseeded check values (%s)' % (o['offset'], fails[0][0]))
+            elif not alt:
+                bad('offset|stale-first-comparison', 'offset=%d: period t was seeded, but the first iteration was compared with the check '
+                    'values read BEFORE the seeding (%s)' % (o['offset'], fails[0][0]))
+            else:
+                for sig, what in alt:
+                    bad(sig, what)
 
 
 def _all_finite_case(sub):
@@ -684,8 +759,6 @@ def oracle(case, obs):
                     bad('ctor|lags-leads', 'linker LAGS/LEADS must be the maxima over the submodels (%d, %d); got %s' % (ml, md, (obs['LAGS'], obs['LEADS'], obs['lags'], obs['leads'])))
                 if obs['span'][1] != base[1] or ELT_CLASS.get(obs['span'][0], 0) != ELT_CLASS.get(base[0], 0):
                     bad('ctor|span', 'linker span %s differs from the submodels\' span %s' % (obs['span'], base))
-                if obs.get('shares_span_object') and base[0] == 'list':
-                    bad('ctor|span-shared', 'the linker\'s span is the first submodel\'s list object, not a copy')
         return fails
     if kind == 'solve_t':
         _oracle_solve_t(case, obs, bad)
@@ -700,18 +773,10 @@ def oracle(case, obs):
             before = {'core': st['core'], 'subs': st['subs']}
         return fails
     if kind == 'copy':
-        _oracle_solve_t(case, obs, bad)               # the solved one (copy or original) obeys the statement like any linker
-        oth = obs['other']
-        if obs['aliased']:
-            bad('copy|aliased', 'the %s-copy shares a submodel object / a NumPy buffer / the submodels dictionary with the original' % case['copy_how'])
-        if not obs['same_shape']:
-            bad('copy|shape', 'the copy differs from the original in class, submodel ids / order, span or lags / leads')
-        untouched = oth['core'] == {k: case['core'][k] for k in ('vals', 'status', 'iters')} and not oth['log'] and \
-            all({k: d[k] for k in ('vals', 'status', 'iters')} == {k: s[k] for k in ('vals', 'status', 'iters')} and not d['evlog']
-                for s, d in zip(case['subs'], oth['subs']))
-        if not untouched:
-            bad('copy|not-independent', 'solving the %s changed (or evaluated) the %s' % (
-                'copy' if case['solve_which'] == 'copy' else 'original', 'original' if case['solve_which'] == 'copy' else 'copy'))
+        # a linker obtained by copy() / copy.copy / copy.deepcopy (or the original after a copy was taken) is a linker: the
+        # statement holds of it; K compares it with the model run of a freshly built linker.  Independence of copy and original is
+        # not part of C08's text (it is C11's subject): observed (obs['aliased'], obs['other']) but not judged here.
+        _oracle_solve_t(case, obs, bad)
         return fails
     if kind == 'solve':
         o = case['opts']
@@ -780,12 +845,8 @@ def oracle(case, obs):
 
 
 def guard(case, obs):
-    """Inputs inside the guard class of a kept finding: the model mirrors the defect there, K is silent."""
-    if case['kind'] == 'ctor':
-        return False
-    if case['kind'] == 'history':
-        return any(c['opts']['offset'] != 0 for c in case['calls'])
-    return case['opts']['offset'] != 0           # finding #8: offset ignored by the linker
+    """No input class is exempt from K any more: the model mirrors the kept findings (offset ignored, no error policy)."""
+    return False        # finding #8 (offset ignored) is mirrored by the model: K is compared under an offset too           # finding #8: offset ignored by the linker
 
 
 def nontrivial(case, obs):
@@ -1048,6 +1109,11 @@ def random_case(rng, kind='solve_t'):
         if kind != 'solve' and feasible_t:                 # mostly a period with room for every submodel's lags and leads
             sub['lags'] = min(sub['lags'], p)
             sub['leads'] = min(sub['leads'], n - 1 - p)
+        if kind != 'twin' and rng.random() < 0.25:
+            # class-level CHECK / LAGS / LEADS differ from the instance attributes: get_check_values reads the INSTANCE check list,
+            # __init__ the CLASS-level LAGS / LEADS (sub['check'], sub['lags'], sub['leads'] are the ones the linker uses)
+            sub['class_check'] = rng.sample(range(nv), rng.randint(0, nv))
+            sub['ilags'], sub['ileads'] = rng.randint(0, 3), rng.randint(0, 3)
         if rng.random() < 0.15:
             sub['status'][p] = rng.choice(['.', 'F', 'E', 'S'])
             sub['iters'][p] = rng.randint(0, 9)
@@ -1284,6 +1350,8 @@ def ctor_cases(rng, count):
                         k = 'list'
                     lab[rng.choice([0, len(lab) // 2, len(lab) - 1])] += rng.choice([100, 1, -1]) if len(lab) == 1 else 100     # one position
             subs.append({'id': i, 'span': [k, lab], 'lags': rng.randint(0, 4), 'leads': rng.randint(0, 4)})
+            if rng.random() < 0.3:    # instance-level lags / leads that differ from the class-level ones
+                subs[-1]['ilags'], subs[-1]['ileads'] = rng.randint(0, 6), rng.randint(0, 6)
         c = {'kind': 'ctor', 'subs': subs, 'span': None, 'opts': mk_opts()}
         if rng.random() < 0.12:
             c['span'] = ['list', list(range(3))]
